@@ -37,6 +37,76 @@ CLASSMAP = {'Cycles': ['C15'], 'IterateCycles': ['C15', 'C16'], 'SiftConfig': ['
 FILEMAP = {'emd/_cycles_support.py': ['C16', 'C14', 'C15'], 'emd/logger.py': ['C20']}
 
 
+def context(node, parents):
+    fn = cls = None
+    q = node
+    while q in parents:
+        q = parents[q]
+        if isinstance(q, (ast.FunctionDef, ast.AsyncFunctionDef)) and fn is None:
+            fn = q.name
+        if isinstance(q, ast.ClassDef) and cls is None:
+            cls = q.name
+    return fn, cls
+
+
+def more_sites(op):
+    """op = offby1 : `e + 1` / `e - 1` -> `e`;  dropkw : a pass-through keyword argument `name=name` (or `name=self.name`) is
+    dropped from a call;  nocopy : `e.copy()` -> `e`."""
+    out = []
+    for f in FILES:
+        src = open(os.path.join(REPO, f)).read()
+        lines = src.split('\n')
+        tree = ast.parse(src)
+        parents = {}
+        for node in ast.walk(tree):
+            for ch in ast.iter_child_nodes(node):
+                parents[ch] = node
+        for node in ast.walk(tree):
+            edit = None
+            if op == 'offby1' and isinstance(node, ast.BinOp) and isinstance(node.op, (ast.Add, ast.Sub)) and \
+                    isinstance(node.right, ast.Constant) and node.right.value == 1 and type(node.right.value) is int and \
+                    node.lineno == node.end_lineno:
+                edit = (node.lineno, node.left.end_col_offset, node.end_col_offset, '')
+            elif op == 'nocopy' and isinstance(node, ast.Call) and isinstance(node.func, ast.Attribute) and node.func.attr == 'copy' and \
+                    not node.args and not node.keywords and node.lineno == node.end_lineno:
+                edit = (node.lineno, node.func.value.end_col_offset, node.end_col_offset, '')
+            elif op == 'dropkw' and isinstance(node, ast.Call):
+                for kw in node.keywords:
+                    v = kw.value
+                    name = v.id if isinstance(v, ast.Name) else (v.attr if isinstance(v, ast.Attribute) else None)
+                    if kw.arg and name == kw.arg and v.lineno == v.end_lineno:
+                        ln = v.lineno
+                        line = lines[ln - 1]
+                        start = line.rfind(kw.arg, 0, v.col_offset)
+                        end = v.end_col_offset
+                        # remove a following ", " or a preceding ", "
+                        rest = line[end:]
+                        if rest.startswith(', '):
+                            end += 2
+                        elif rest.startswith(','):
+                            end += 1
+                        elif line[:start].rstrip().endswith(','):
+                            start = len(line[:start].rstrip()) - 1
+                        fn, cls = context(node, parents)
+                        props = MAP.get(fn) or CLASSMAP.get(cls) or FILEMAP.get(f)
+                        if props and kw.arg in ('imf_opts', 'envelope_opts', 'extrema_opts') and f == 'emd/sift.py':
+                            props = ['C06'] + [q for q in props if q != 'C06']
+                        if props and start >= 0:
+                            out.append({'file': f, 'line': ln, 'col': start, 'old': line[start:end], 'new': '', 'fn': (cls + '.' if cls else '') + (fn or '?'),
+                                        'props': props, 'text': line.strip()[:90]})
+                continue
+            if edit is None:
+                continue
+            fn, cls = context(node, parents)
+            props = MAP.get(fn) or CLASSMAP.get(cls) or FILEMAP.get(f)
+            if not props:
+                continue
+            ln, a, b, new = edit
+            out.append({'file': f, 'line': ln, 'col': a, 'old': lines[ln - 1][a:b], 'new': new, 'fn': (cls + '.' if cls else '') + (fn or '?'), 'props': props,
+                        'text': lines[ln - 1].strip()[:90]})
+    return out
+
+
 def sites():
     out = []
     for f in FILES:
@@ -93,6 +163,9 @@ def one(i_s):
         l = lines[s['line'] - 1]
         lines[s['line'] - 1] = l[:s['col']] + s['new'] + l[s['col'] + len(s['old']):]
         open(p, 'w').write('\n'.join(lines))
+        rc, out = run(['/venv/bin/python', '-c', 'import ast,sys; ast.parse(open(sys.argv[1]).read())', p])
+        if rc != 0:
+            return s, 'not-python', {}
         rc, out = run(['/venv/bin/python', '-m', 'pytest', '-q', '-x', '-p', 'no:cacheprovider', '--timeout=600', 'emd'], cwd=wt, timeout=1200)
         if rc != 0:
             return s, 'killed-by-tests', {}
@@ -118,13 +191,15 @@ def main():
         jobs = int(a[a.index('--jobs') + 1])
     if '--only' in a:
         only = a[a.index('--only') + 1]
-    S = [s for s in sites() if not only or only in s['file'] or only in s['fn']]
+    op = a[a.index('--op') + 1] if '--op' in a else 'boundary'
+    allsites = sites() if op == 'boundary' else more_sites(op)
+    S = [s for s in allsites if not only or only in s['file'] or only in s['fn']]
     if '--list' in a:
         for s in S:
             print('%s:%d\t%s\t%s -> %s\t%s\t%s' % (s['file'], s['line'], s['fn'], s['old'], s['new'], ','.join(s['props']), s['text']))
         print(len(S), 'sites')
         return
-    outp = '/verif/seeded/BOUNDARY_SWEEP.tsv' if not only else '/var/tmp/boundary_sweep_%s.tsv' % only.replace('/', '_')
+    outp = '/var/tmp/sweep_%s_%s.tsv' % (op, (only or 'all').replace('/', '_'))
     with open(outp, 'w') as f, ThreadPoolExecutor(jobs) as ex:
         for s, verdict, res in ex.map(one, enumerate(S)):
             line = '%s:%d\t%s\t%s -> %s\t%s\t%s\t%s' % (s['file'], s['line'], s['fn'], s['old'], s['new'], verdict,
